@@ -296,7 +296,7 @@ let normalize_cc (n : int) (x : cxstate) : cxstate =
 let run_tracecc infile outfile =
   let oc = open_out_bin outfile in
   let lines = read_lines infile in
-  let cur_k = ref "" and cur_n = ref 0 and header = ref "" and cur_boot = ref 0 and cur_page1 = ref false in
+  let cur_k = ref "" and cur_n = ref 0 and header = ref "" and cur_boot = ref 0 and cur_page1 = ref false and cur_skip = ref false in
   let groups : group list ref = ref [] in
   let cur : group option ref = ref None in
   let flush_group () = (match !cur with Some g -> groups := { g with g_out = List.rev g.g_out } :: !groups | None -> ()); cur := None in
@@ -304,6 +304,7 @@ let run_tracecc infile outfile =
     flush_group ();
     let gs = List.rev !groups in
     groups := [];
+    if !cur_skip then Printf.fprintf oc "S %s SKIP learners\n" !cur_k else
     let n = !cur_n in
     let boot = { c_in = List.init !cur_boot (fun i -> nat_of_int (i + 1)); c_out = []; c_auto = false } in
     let page1 = !cur_page1 in
@@ -367,7 +368,8 @@ let run_tracecc infile outfile =
   List.iter (fun l ->
       match split_ws l with
       | ["SCHEDULE"; k] -> cur_k := k; groups := []; cur := None
-      | "N" :: n :: _ :: _ :: ms :: k :: _ -> cur_n := int_of_string n; cur_boot := int_of_string k; cur_page1 := (ms = "0"); header := l
+      | "N" :: n :: _ :: _ :: ms :: k :: rest -> cur_n := int_of_string n; cur_boot := int_of_string k; cur_page1 := (ms = "0"); header := l;
+        cur_skip := (match rest with f :: _ -> int_of_string f land 4 <> 0 | [] -> false)
       | "EV" :: kind :: id :: args -> flush_group (); cur := Some { g_kind = kind; g_id = int_of_string id; g_args = args; g_out = []; g_st = None; g_panic = None }
       | "OUT" :: toks -> (match !cur with Some g -> cur := Some { g with g_out = toks :: g.g_out } | None -> ())
       | "ST" :: toks -> (match !cur with Some g -> cur := Some { g with g_st = Some toks } | None -> ())
